@@ -215,6 +215,14 @@ class Check:
                 self.proof_breaks.append(f"theorem {t} uses axioms {ax}")
             else:
                 self.discharged += 1
+        if self.tier == "thorough":
+            # independent re-check of the compiled proofs (Lean's stand-alone checker replays every declaration of the
+            # property's modules through the kernel, without the elaborator)
+            t0 = time.time()
+            r = _run(["lake", "env", "leanchecker", *self.modules], cwd=LEAN, timeout=3000)
+            self.extra["leanchecker"] = {"modules": list(self.modules), "rc": r.returncode, "seconds": round(time.time() - t0, 1)}
+            if r.returncode != 0:
+                self.proof_breaks.append("leanchecker rejects the compiled modules: " + (r.stdout + r.stderr)[-800:])
         return not self.proof_breaks
 
     # ---- outcome
